@@ -854,6 +854,12 @@ func (o *Oracle) storeUnjudged(key string) {
 
 func (o *Oracle) anyUnjudged() bool { return len(o.unjudged) > 0 }
 
+// ParseListOut parses `ok <n> <tok>… [err=…]`.
+func ParseListOut(out string) (n int, toks []string, tail string, ok bool) { return parseListOut(out) }
+
+// TsClass classifies a canonical timestamp token: "none", "past", "now", "future".
+func TsClass(tok string) string { return tsClass(tok) }
+
 func parseListOut(out string) (n int, toks []string, tail string, ok bool) {
 	f := strings.Fields(out)
 	if len(f) < 2 || f[0] != "ok" {
